@@ -728,6 +728,9 @@ def install_iters(eng):
     for p in ("<core::slice::Iter<'a, T> as core::iter::Iterator>::next", "<core::iter::Zip<A, B> as core::iter::Iterator>::next",
               "<core::iter::Enumerate<I> as core::iter::Iterator>::next", "<core::iter::Take<I> as core::iter::Iterator>::next"):
         M[p] = m_iter_next
+    for nm, m in (("find", m_iter_find), ("position", m_iter_position), ("any", m_iter_any), ("all", m_iter_all)):
+        M["<core::slice::Iter<'a, T> as core::iter::Iterator>::" + nm] = m
+        M["core::iter::Iterator::" + nm] = m
 
 
 def m_slice_iter(eng, st, c, args, dest_tid, t):
@@ -793,6 +796,76 @@ def _advance(eng, st, it, item_tid):
                 out.append((s2, IterV("take", a=na, n=Int(left.lin - 1, left.tid)), ia))
         return out
     return [(st, it, None)]
+
+
+def _iter_search(eng, st, c, args, dest_tid, t, mode):
+    """Iterator::find / position / any / all over a constant-length iterator with a closure that has a MIR body: the elements are
+    visited in order and the closure is interpreted on each (one path per outcome), exactly as the library loop does."""
+    ref, clo = args[0], args[1]
+    if not (isinstance(ref, Ref) and ref.key is not None):
+        return NotImplemented
+    it = eng.deref(st, ref)
+    fn = eng.closure_fn(clo)
+    if not isinstance(it, IterV) or fn is None:
+        return NotImplemented
+    eng.ncell += 1
+    ckey = ("cell", eng.ncell, "closure-env")
+    st.store[ckey] = clo
+    out = []
+    work = [(st, it, 0)]
+    usize = eng.find_tid("usize")
+    btid = eng.find_tid("bool")
+    while work:
+        s0, it0, k = work.pop()
+        for s1, nit, item in _advance(eng, s0, it0, None):
+            if item is None:
+                eng.write_key(s1, ref.key, ref.proj, nit)
+                if mode in ("find", "position"):
+                    out.append((s1, eng.mk_option(dest_tid, None)))
+                else:
+                    out.append((s1, Bool(FALSE if mode == "any" else TRUE)))
+                continue
+            if mode == "find":
+                eng.ncell += 1
+                ikey = ("cell", eng.ncell, "iter-item")
+                s1.store[ikey] = item
+                cargs = [Ref(key=ckey), Ref(key=ikey)]  # predicate takes &Self::Item
+            else:
+                cargs = [Ref(key=ckey), item]
+            returned, ended = eng.subcall(s1, fn, cargs)
+            out.extend((s2, None) for s2 in ended)
+            for s2, v in returned:
+                if not isinstance(v, Bool):
+                    return NotImplemented
+                ts, fs = eng.branch(s2, v.c)
+                hit, miss = (ts, fs) if mode != "all" else (fs, ts)
+                for s3 in hit:
+                    eng.write_key(s3, ref.key, ref.proj, nit)
+                    if mode == "find":
+                        out.append((s3, eng.mk_option(dest_tid, item)))
+                    elif mode == "position":
+                        out.append((s3, eng.mk_option(dest_tid, Int(Lin.const(k), usize))))
+                    else:
+                        out.append((s3, Bool(TRUE if mode == "any" else FALSE)))
+                for s3 in miss:
+                    work.append((s3, nit, k + 1))
+    return out
+
+
+def m_iter_find(eng, st, c, args, dest_tid, t):
+    return _iter_search(eng, st, c, args, dest_tid, t, "find")
+
+
+def m_iter_position(eng, st, c, args, dest_tid, t):
+    return _iter_search(eng, st, c, args, dest_tid, t, "position")
+
+
+def m_iter_any(eng, st, c, args, dest_tid, t):
+    return _iter_search(eng, st, c, args, dest_tid, t, "any")
+
+
+def m_iter_all(eng, st, c, args, dest_tid, t):
+    return _iter_search(eng, st, c, args, dest_tid, t, "all")
 
 
 def m_iter_next(eng, st, c, args, dest_tid, t):
